@@ -117,6 +117,7 @@ class St:
         s.unpred = self.unpred
         s.branched = self.branched
         s.thumb = self.thumb
+        s.unpriv_access = getattr(self, 'unpriv_access', False)
         return s
 
     # ---- generic -------------------------------------------------------
